@@ -160,8 +160,23 @@ def cmpObs (reps : List Rep) : String :=
   let pr := match Impl.build reps with
     | .generic _ | .union _ => "ok"
     | _ => "na"
+  -- the further clients, over the distinct inputs d0..d(m-1): rows (k: d_p, i: p)
+  let sorted := Impl.orderBy id distinct
+  let rows : List Rep := distinct.zipIdx.map (fun (d, p) => .gtuple [("k", d), ("i", .num p)])
+  let kOf (row : Rep) : Rep := match row with | .gtuple as => Impl.lookupAttr "k" as | r => r
+  let iOf (row : Rep) : Int := match row with | .gtuple as => (match Impl.lookupAttr "i" as with | .num i => i | _ => 0) | _ => 0
+  let ordk := (Impl.orderBy kOf rows).map (fun row => firstIdx reps (kOf row))
+  let rk := Impl.rank kOf rows
+  let rm := Impl.rank (fun row => .num (iOf row % 2)) rows
+  let rankIn (rs : List (Rep × Nat)) (row : Rep) : Nat := ((rs.find? (fun q => iOf q.1 == iOf row)).map (·.2)).getD 0
+  let rank2 := rows.map (fun row => toString (rankIn rk row) ++ "/" ++ toString (rankIn rm row))
+  let mxk := ((Impl.maxOf (rows.map kOf)).map (firstIdx reps)).getD 0
+  let mnk := ((Impl.minOf (rows.map kOf)).map (firstIdx reps)).getD 0
   ";".intercalate (pairs ++ ["ord=" ++ natList ord, "rank=" ++ natList (reps.map rankOf),
-    "max=" ++ toString (mx.getD 0), "min=" ++ toString (mn.getD 0), "print=" ++ pr, "laws=ok"])
+    "max=" ++ toString (mx.getD 0), "min=" ++ toString (mn.getD 0), "print=" ++ pr,
+    "ordk=" ++ natList ordk, "order=" ++ natList (sorted.map (firstIdx reps)),
+    "orderd=" ++ natList (sorted.reverse.map (firstIdx reps)), "rank2=" ++ ",".intercalate rank2,
+    "maxk=" ++ toString mxk, "mink=" ++ toString mnk, "prd=ok", "prr=ok", "laws=ok"])
 
 def mkCmp (id stratum : String) (vs : List Val) : Case :=
   let obs := cmpObs (vs.map (·.rep))
@@ -190,6 +205,88 @@ def genCase (idx : Nat) (triple : Bool) (deep : Bool) : Gen Case := do
   let vs := dropSuperimposed vs
   let vs := if vs.length < 2 then [a, ofLitVal (.num 7)] else vs
   pure (mkCmp s!"C06-{idx}" (stratumOf vs) vs)
+
+/-! ## dense strata -/
+
+/-- wrap every value of a case the same way: bare, as an attribute, an array item, a set member, a dictionary value -/
+def wrapVal (w : Nat) (v : Val) : Val :=
+  match w with
+  | 0 | 1 => v
+  | 2 => tupVal [("a", v)]
+  | 3 => arrVal 0 [some v]
+  | 4 => setVal [v]
+  | 5 => tupVal [("@", ofLitVal (.num 7)), ("@value", v)]
+  | _ => tupVal [("a", ofLitVal (.num 1)), ("z", v)]
+
+/-- strictly increasing by the model's order -/
+def sortVals (vs : List Val) : List Val :=
+  let ds := vs.foldl (fun acc v => if acc.any (fun w => Impl.equal w.rep v.rep) then acc else acc ++ [v]) []
+  isort (fun a b => Impl.less a.rep b.rep) ds
+
+/-- specialised tuples with CROSSED components: first components increasing, second components decreasing
+(so a comparison that looks at one component only, or forgets the `>` branch, gets at least one pair wrong) -/
+def genCrossedCase (idx : Nat) : Gen Case := do
+  let kind ← rand 4
+  let n ← rand 2
+  let n := n + 2
+  let i0 ← randInt (-1) 1
+  let vals ← genList 5 (genVal 1)
+  let asc := sortVals vals
+  let vals2 ← genList 5 (genVal 1)
+  let asc2 := sortVals vals2
+  let num (i : Int) := ofLitVal (.num i)
+  let ts : List Val :=
+    (List.range n).filterMap (fun (j : Nat) =>
+      let i : Int := i0 + Int.ofNat j
+      let dj : Int := Int.ofNat (n - 1 - j)
+      match kind with
+      | 0 => some (tupVal [("@", num i), ("@char", num (97 + dj))])
+      | 1 => some (tupVal [("@", num i), ("@byte", num dj)])
+      | 2 => (asc.reverse.drop j).head?.map (fun x => tupVal [("@", num i), ("@item", x)])
+      | _ => match (asc.drop j).head?, (asc2.reverse.drop j).head? with
+        | some k, some v => some (tupVal [("@", k), ("@value", v)])
+        | _, _ => none)
+  let w ← rand 7
+  let ts ← shuffle (ts.map (wrapVal w))
+  let ts := if ts.length < 2 then [num 1, num 2] else ts
+  let names := ["charT", "byteT", "itemT", "entryT"]
+  pure (mkCmp s!"C06-x{idx}" ("crossed/" ++ names.getD kind "" ++ "/w" ++ toString w) ts)
+
+/-- keys whose printed text and whose `<` order disagree: offsets, holes, mixed kinds -/
+def genKeyVal : Gen Val := do
+  let r ← rand 12
+  let off ← randInt (-1) 2
+  let num (i : Int) := ofLitVal (.num i)
+  match r with
+  | 0 | 1 | 2 => do
+    let n ← rand 3
+    pure (ofLitVal (.str off (← genList (n + 1) (do pure (97 + (← rand 3))))))
+  | 3 | 4 => do
+    let n ← rand 2
+    pure (ofLitVal (.arr off ((← genList (n + 1) (do pure (Lit.num (← randInt 0 2)))).map some)))
+  | 5 => do
+    let n ← rand 2
+    pure (ofLitVal (.bytes off (← genList (n + 1) (rand 3))))
+  | 6 => do
+    -- a string with a hole
+    let c ← rand 3
+    pure (setVal [tupVal [("@", num off), ("@char", num (97 + c))], tupVal [("@", num (off + 2)), ("@char", num 97)]])
+  | 7 => do
+    let a ← randInt 0 2
+    pure (ofLitVal (.arr off [some (.num a), none, some (.num 1)]))
+  | 8 => do pure (num (← randInt (-1) 2))
+  | 9 => do pure (ofLitVal (.tup [("a", .str (← randInt 0 1) [97 + (← rand 2)])]))
+  | 10 => do pure (setVal [ofLitVal (.str off [97 + (← rand 2)])])
+  | _ => genVal 1
+
+/-- 4–8 keys for every client of the order -/
+def genClientsCase (idx : Nat) : Gen Case := do
+  let n ← rand 5
+  let ks ← genList (n + 4) genKeyVal
+  let ks := ks.foldl (fun acc v => if acc.any (fun w => Impl.equal w.rep v.rep) then acc else acc ++ [v]) []
+  let ks := dropSuperimposed ks
+  let ks := if ks.length < 2 then [ofLitVal (.str 0 [98]), ofLitVal (.str 1 [97])] else ks
+  pure (mkCmp s!"C06-k{idx}" s!"clients/{ks.length}" ks)
 
 /-! ## numbers outside the integer model: only the laws are checked -/
 def fracSrcs : List String :=
@@ -232,7 +329,11 @@ def corpusVals : List (List Val) :=
      L (.dict [(.num 1, .num 2)])],
     [setVal [negVal (L (.set [.num 1])), negVal (L (.set [.num 2]))], setVal [negVal (L (.set [.num 2]))]],
     [L (.arr 0 [some (.num 1), none, some (.num 2)]), L (.arr 0 [some (.num 1), some (.num 0), some (.num 2)]),
-     L (.arr 0 [some (.num 1)])] ]
+     L (.arr 0 [some (.num 1)])],
+    -- crossed dict entry tuples: keys and values ordered in opposite directions
+    [tupVal [("@", n 2), ("@value", n 1)], tupVal [("@", n 1), ("@value", n 2)]],
+    -- text order and `<` disagree: 'b' < 1\'a'
+    [L (.str 0 [98]), L (.str 1 [97]), L (.arr 0 [some (.num 2)]), L (.arr 1 [some (.num 1)]), n 3] ]
 
 def corpus : List Case :=
   (corpusVals.zipIdx.map (fun (vs, i) => mkCmp s!"C06-corpus-{i}" "corpus" vs)) ++
@@ -309,9 +410,12 @@ def gen (seed n : Nat) (thorough : Bool) : List Case := Id.run do
       out := c :: out
   for i in [0:n] do
     -- two pairs for every triple; a tenth of the budget on the float stream
-    let k := i % 10
+    -- of every 20: 2 float cases, 3 crossed specialised tuples, 3 key sets for the order's clients, 8 pairs, 4 triples
+    let k := i % 20
     let (c, _) :=
-      if k == 9 then (genFloatCase i).run (seedOf seed (600000 + i))
+      if k == 9 || k == 19 then (genFloatCase i).run (seedOf seed (600000 + i))
+      else if k == 3 || k == 10 || k == 16 then (genCrossedCase i).run (seedOf seed (600000 + i))
+      else if k == 5 || k == 12 || k == 17 then (genClientsCase i).run (seedOf seed (600000 + i))
       else (genCase i (k % 3 == 2) (thorough && i % 4 == 0)).run (seedOf seed (600000 + i))
     out := c :: out
   pure out.reverse
